@@ -49,11 +49,15 @@ def is_nan_bits(b):
 # builder
 
 
-def decl_bytes(elements):
+def decl_bytes(elements, junk=None):
+    """junk: a random.Random - the slots behind the terminator are not part of the declaration and get arbitrary bytes"""
     b = b""
     for (stream, off, typ, usage, uidx) in elements:
         b += struct.pack("<BBBBB3x", stream, off, typ, usage, uidx)
     b += struct.pack("<BBBBB3x", 0xFF, 0, 0, 0, 0)
+    if junk is not None:
+        fill = junk.choice([b"\xFF", b"\xCD", None])
+        b += (fill * (17 * 8 - len(b))) if fill else bytes(junk.randrange(256) for _ in range(17 * 8 - len(b)))
     return b.ljust(17 * 8, b"\0")
 
 
@@ -96,7 +100,8 @@ def build(m):
     lods = m["lods"]
     nl = len(lods)
     meshes = [me for l in lods for me in l]
-    stack = b"".join(decl_bytes(me["elements"]) for me in meshes)
+    dj = random.Random(m["decl_junk_seed"]) if m.get("decl_junk_seed") is not None else None
+    stack = b"".join(decl_bytes(me["elements"], dj) for me in meshes)
     # vertex / index sections per lod
     lod_info = []
     mesh_recs = []
